@@ -255,7 +255,14 @@ class one_dimensional_chain(lattice):
         return hash((self.n_sites, self.shape, self.sites, self.bonds))
 
     def tree_flatten(self):
-        return (), (self.n_sites, self.shape, self.sites, self.bonds, self.coord_num)
+        return (), (
+            self.n_sites,
+            self.shape,
+            self.sites,
+            self.bonds,
+            self.hop_signs,
+            self.coord_num,
+        )
 
     @classmethod
     def tree_unflatten(cls, aux_data, children):
